@@ -113,6 +113,19 @@ def b_transpose(a, a_cols):
     return _unmat(T, ac, ar)
 
 
+def b_linear_solve(a, b, a_cols, b_cols):
+    A, ar, ac = _mat(a, a_cols, "linear_solve")
+    B, br, bc = _mat(b, b_cols, "linear_solve")
+    if ar != ac or ar != br or ar != 2:
+        raise Undefined("linear-solve-shape")
+    det = A[0][0] * A[1][1] - A[0][1] * A[1][0]
+    if abs(det) < 1e-6:
+        raise Undefined("linear-solve-singular")
+    X = [[(B[0][j] * A[1][1] - A[0][1] * B[1][j]) / det for j in range(bc)],
+         [(A[0][0] * B[1][j] - B[0][j] * A[1][0]) / det for j in range(bc)]]
+    return _unmat(X, 2, bc)
+
+
 class ArrayMaker:
     """<builtin>array(n): storage whose elements are undefined until written."""
 
@@ -196,13 +209,14 @@ def builtin_table(masks):
         "<builtin>len": b_len, "<builtin>isnan": b_isnan, "<builtin>dot_product": b_dot,
         "<builtin>elementwise_abs": b_abs, "<builtin>array": ArrayMaker(masks),
         "<builtin>matmul": b_matmul, "<builtin>transpose": b_transpose,
+        "<builtin>linear_solve": b_linear_solve,
     }
 
 BUILTIN_ARGS = {
     "<builtin>norm_1": ["x"], "<builtin>norm_2": ["x"], "<builtin>norm_inf": ["x"], "<builtin>len": ["x"],
     "<builtin>isnan": ["x"], "<builtin>dot_product": ["x", "y"], "<builtin>elementwise_abs": ["x"],
     "<builtin>array": ["n"], "<builtin>matmul": ["a", "b", "a_cols", "b_cols"],
-    "<builtin>transpose": ["a", "a_cols"],
+    "<builtin>transpose": ["a", "a_cols"], "<builtin>linear_solve": ["a", "b", "a_cols", "b_cols"],
 }
 
 # }}}
